@@ -33,12 +33,17 @@ def settings_label(s):
 
 def pattern_label(p):
     f = lambda o: ';'.join(f'{k}:{",".join(map(str, v))}' for k, v in sorted(o.items()))  # noqa
-    return f'[{f(p["src_override"])}|{f(p["tgt_override"])}]'
+    mx = ''
+    if p.get('max_src') is not None:
+        mx += f' ms{p["max_src"]}'
+    if p.get('max_tgt') is not None:
+        mx += f' mt{p["max_tgt"]}'
+    return f'[{f(p["src_override"])}|{f(p["tgt_override"])}{mx}]'
 
 
-def mk(src, tgt, excluded=(), mcp=None, patterns=None, name=None):
+def mk(src, tgt, excluded=(), mcp=None, patterns=None, name=None, with_max=False):
     s = dict(src=list(src), tgt=list(tgt), excluded=[tuple(e) for e in excluded], mcp=mcp, name=name)
-    s['patterns'] = patterns if patterns is not None else default_patterns(s)
+    s['patterns'] = patterns if patterns is not None else default_patterns(s, with_max=with_max)
     return s
 
 
@@ -64,7 +69,7 @@ def _sub_lists(c, n_max=3):
     return res[:n_max]
 
 
-def default_patterns(s, rnd=None, n_override=2):
+def default_patterns(s, rnd=None, n_override=2, with_max=False):
     ns, nt = len(s['src']), len(s['tgt'])
     pats = [pattern(ns, nt)]
     for i in range(ns):
@@ -88,6 +93,13 @@ def default_patterns(s, rnd=None, n_override=2):
         if ns > 1:
             pats.append(pattern(ns, nt, src_absent=[ns-1], src_override={0: rnd.choice(so)},
                                 tgt_override={0: rnd.choice(to)}))
+    # degree caps (NodeExistence.max_src_conn_override / max_tgt_conn_override)
+    if with_max:
+        pats.append(pattern(ns, nt, max_src=rnd.choice([1, 2])))
+        pats.append(pattern(ns, nt, max_tgt=rnd.choice([1, 2, 3])))
+        pats.append(pattern(ns, nt, max_src=2, max_tgt=rnd.choice([1, 2]), tgt_absent=[nt-1] if nt > 1 else []))
+        if so:
+            pats.append(pattern(ns, nt, src_override={0: rnd.choice(so)}, max_src=1, max_tgt=2))
     # de-duplicate
     seen, out = set(), []
     for p in pats:
@@ -108,7 +120,8 @@ def to_settings(s):
     exist = []
     for p in s['patterns']:
         exist.append(NodeExistence(src_n_conn_override={k: list(v) for k, v in p['src_override'].items()} or None,
-                                   tgt_n_conn_override={k: list(v) for k, v in p['tgt_override'].items()} or None))
+                                   tgt_n_conn_override={k: list(v) for k, v in p['tgt_override'].items()} or None,
+                                   max_src_conn_override=p.get('max_src'), max_tgt_conn_override=p.get('max_tgt')))
     settings = MatrixGenSettings(src=src, tgt=tgt, excluded=[tuple(e) for e in s['excluded']] or None,
                                  existence=NodeExistencePatterns(patterns=exist), max_conn_parallel=s.get('mcp'))
     return settings, exist
@@ -143,7 +156,7 @@ def named_settings():
     return out
 
 
-def random_settings(rnd, ns, nt, alphabet=None, p_excl=0.3, p_mcp=0.1):
+def random_settings(rnd, ns, nt, alphabet=None, p_excl=0.3, p_mcp=0.1, with_max=False):
     alphabet = alphabet or (ALPHABET+EXTRA[:3])
     src = [rnd.choice(alphabet) for _ in range(ns)]
     tgt = [rnd.choice(alphabet) for _ in range(nt)]
@@ -154,7 +167,7 @@ def random_settings(rnd, ns, nt, alphabet=None, p_excl=0.3, p_mcp=0.1):
     elif r < p_excl+0.1 and ns > 1 and nt > 1:
         excluded = [(k, k) for k in range(min(ns, nt))]
     mcp = rnd.choice([1, 2, 3]) if rnd.random() < p_mcp else None
-    return mk(src, tgt, excluded, mcp)
+    return mk(src, tgt, excluded, mcp, with_max=with_max)
 
 
 def exhaustive_2x2(alphabet=None):
@@ -163,7 +176,7 @@ def exhaustive_2x2(alphabet=None):
         yield mk([a, b], [c_, d])
 
 
-def pool(tier, seed, with_named=True):
+def pool(tier, seed, with_named=True, with_max=False):
     rnd = random.Random(1000+seed)
     out = named_settings() if with_named else []
     if tier == 'quick':
@@ -172,8 +185,12 @@ def pool(tier, seed, with_named=True):
         shapes = [(1, 1, 40), (1, 2, 150), (2, 1, 150), (2, 2, 900), (2, 3, 300), (3, 2, 300), (3, 3, 120),
                   (1, 3, 100), (3, 1, 100)]
     for ns, nt, n in shapes:
-        for _ in range(n):
-            out.append(random_settings(rnd, ns, nt))
+        for k_ in range(n):
+            out.append(random_settings(rnd, ns, nt, with_max=with_max and k_ % 3 == 0))
+    if with_max:
+        c = conn
+        out.append(mk([c([1, 2, 3])], [c([0, 1]), c([0, 1]), c([0, 1])], name='degree cap on a list source', with_max=True))
+        out.append(mk([c(min_=0), c([0, 1, 2])], [c(min_=1), c([1, 2, 3])], name='degree caps mixed', with_max=True))
     if tier == 'thorough':
         # bounded-exhaustive part: every assignment of the 10-type sub-alphabet to 2x2 connectors would be 10^4
         # settings x ~12 patterns; a seeded third of it keeps the thorough tier at minutes
